@@ -406,6 +406,7 @@ func (c *c13) exec(line string) (obs string, suffix string) {
 	kind := fl[0]
 	ok := false
 	all := false
+	extra := ""
 	switch fl[0] {
 	case "newra":
 		c.save()
@@ -542,6 +543,24 @@ func (c *c13) exec(line string) (obs string, suffix string) {
 		lb := c.f.Bal(a, c.liq)
 		_, err = c.f.Deliver(&irotypes.MsgBuyExactSpend{Buyer: a.String(), PlanId: c.pid(), Spend: spend, MinOutTokensAmount: c13Int(fl[3])})
 		cls = c.class(err)
+		if err == nil {
+			// the pointwise Newton contract at this executed purchase (Model/IroNewton: NewtonUpperAt /
+			// NewtonLowerAt with newtonTolRaw), recomputed here from the real code's values
+			pa, _ := c.plan()
+			orc = append(orc, c.oracleI(c.curve, planBefore.SoldAmt), c.oracleI(c.curve, pa.SoldAmt))
+			nu, nl := c13NewtonAt(c.curve, c.L, planBefore.SoldAmt, pa.SoldAmt, net)
+			extra = fmt.Sprintf(" nu=%s nl=%s", b01(nu), b01(nl))
+			if !nl {
+				c.r.Hit("newton/lower-contract-fails-at-executed-purchase")
+			}
+			if !nu {
+				c.r.Hit("newton/upper-contract-fails-at-executed-purchase")
+				sold0, sold1, L := planBefore.SoldAmt, pa.SoldAmt, c.L
+				post = append(post, func() {
+					c.viol("C13/newton_contract/overshoot", fmt.Sprintf("executed purchase L=%d sold %s: net spend %s buys %s tokens whose unfloored cost exceeds it (blame point of the solvency / round-trip theorems)", L, sold0, net, sold1.Sub(sold0)))
+				})
+			}
+		}
 		if (cls == "other" || cls == "panic") && curveErr {
 			cls = "curve" // TokensForExactInAmount returned an error or panicked (LegacyDec overflow): the tx fails
 			if IsPanic(err) {
@@ -643,7 +662,23 @@ func (c *c13) exec(line string) (obs string, suffix string) {
 		c.nontrivial = true
 	}
 	c.r.Hit(kind + "/" + cls)
-	return cls + " " + after, suffix
+	return cls + " " + after + extra, suffix
+}
+
+// c13NewtonAt: the two pointwise Newton inequalities at an executed exact-spend purchase, on the real
+// code's values: I(x) = Cost(0,x) of the 18/18-decimals copy of the curve (raw 10^-18),
+//   upper: 10^L·(I(sold1) − I(sold0)) ≤ 10^18·net
+//   lower: p − tol ≤ I(sold1) − I(sold0)   with p = net·10^(18−L), tol = 3·10^(18−12) + p/10^11
+// (12 = epsilonPrecision of bonding_curve.go; the model takes it from the regenerated Gen/Iro.lean)
+func c13NewtonAt(curve irotypes.BondingCurve, L int, sold0, sold1, net math.Int) (upper, lower bool) {
+	c18 := curve
+	c18.RollappDenomDecimals, c18.LiquidityDenomDecimals = 18, 18
+	d := c18.Cost(math.ZeroInt(), sold1).Sub(c18.Cost(math.ZeroInt(), sold0))
+	upper = p10(L).Mul(d).LTE(p10(18).Mul(net))
+	p := net.Mul(p10(18 - L))
+	tol := p10(6).MulRaw(3).Add(p.Quo(p10(11)))
+	lower = p.Sub(tol).LTE(d)
+	return
 }
 
 // ---- monitors (model independent) ------------------------------------------------------------
